@@ -37,6 +37,8 @@ def cell_target(kind):
 def make_run_case(cell, N, rep, seed):
     tgt, bcfg = cell_target(cell["target"])
     cfg = dict(n_particles=N, sample=cell["kernel"], resample=cell["resample"], clustering=cell["clustering"], random_state=None)
+    if cell.get("vv"):
+        cfg["volume_variation"] = cell["vv"]
     cfg.update(bcfg)
     case = dict(kind="run", cell=cell, N=N, rep=rep, seed=seed, target=tgt, cfg=cfg, n_total=8 * N, scenario="plain", eval="scalar")
     arm = cell.get("arm", "faultfree")
@@ -56,23 +58,25 @@ def estimands(case, w, info):
         return None
     tgt = w.target
     tr = tgt.truth()
-    x, wts, logl = s.posterior()
     out = {}
-    for i in range(tgt.d):
-        m = float(np.sum(wts * x[:, i]))
-        v = float(np.sum(wts * (x[:, i] - m) ** 2))
-        out[f"mean{i}"] = (m - tr["mean"][i]) / math.sqrt(tr["var"][i])
-        out[f"var{i}"] = v / tr["var"][i] - 1.0
-    # CDF of coordinate 0 at 5 fixed points (quantile levels found numerically from the truth)
     lo, hi = tgt.lo[0], tgt.support_hi()[0]
     grid = np.linspace(lo, hi, 2001)
     cg = np.array([tr["cdf"](0, g) for g in grid])
-    for q in (0.1, 0.3, 0.5, 0.7, 0.9):
-        xq = float(np.interp(q, cg, grid))
-        pq = tr["cdf"](0, xq)
-        out[f"cdf{q}"] = float(np.sum(wts[x[:, 0] <= xq])) - pq
-    if "masses" in tr and len(tr["masses"]) == 2:
-        out["mass0"] = float(np.sum(wts[x[:, 0] < 0.0])) - tr["masses"][0]
+    # primary: all weighted samples (no trimming); "@trim": what posterior() returns with its defaults
+    for suffix, kw in (("", dict(trim_importance_weights=False)), ("@trim", {})):
+        x, wts, logl = s.posterior(**kw)
+        for i in range(tgt.d):
+            m = float(np.sum(wts * x[:, i]))
+            v = float(np.sum(wts * (x[:, i] - m) ** 2))
+            out[f"mean{i}{suffix}"] = (m - tr["mean"][i]) / math.sqrt(tr["var"][i])
+            out[f"var{i}{suffix}"] = v / tr["var"][i] - 1.0
+        # CDF of coordinate 0 at 5 fixed points (quantile levels found numerically from the truth)
+        for q in (0.1, 0.3, 0.5, 0.7, 0.9):
+            xq = float(np.interp(q, cg, grid))
+            pq = tr["cdf"](0, xq)
+            out[f"cdf{q}{suffix}"] = float(np.sum(wts[x[:, 0] <= xq])) - pq
+        if "masses" in tr and len(tr["masses"]) == 2:
+            out[f"mass0{suffix}"] = float(np.sum(wts[x[:, 0] < 0.0])) - tr["masses"][0]
     out["logz"] = float(s.evidence()[0]) - tr["logz"]
     return out
 
@@ -120,7 +124,7 @@ def decide(cell, by_n, which, prop):
         if c1 and c2:
             btype = "periodic" if "periodic" in cell["target"] else "reflective" if "reflective" in cell["target"] else "hard"
             viol.append(dict(property=prop, oracle="persistent_bias", detail=f"cell {json.dumps(cell, sort_keys=True)}: estimand {name} has mean error {bN:+.4f}+-{seN:.4f} at N={n1} and {b4:+.4f}+-{se4:.4f} at N={n4} "
-                             f"(allowance {delta}, R={len(b)}): significant and not shrinking with the particle count", keys=dict(kernel=cell["kernel"], boundary=btype, clustering=bool(cell["clustering"]), estimand=kind_of(name), arm=cell.get("arm", "faultfree"))))
+                             f"(allowance {delta}, R={len(b)}): significant and not shrinking with the particle count", keys=dict(kernel=cell["kernel"], boundary=btype, clustering=bool(cell["clustering"]), estimand=kind_of(name), arm=cell.get("arm", "faultfree"), target=cell["target"], trimmed=name.endswith("@trim"), metric="vv" if cell.get("vv") else "ess")))
     return viol, table
 
 
